@@ -107,10 +107,23 @@ def count_errors(y: np.ndarray, home_streak_min: int,
     opposing team `B` would have necessarily incured the exactly same
     violations. These are then not counted.
 
-    As upper bound for the number of errors, we therefore have to add those of
-    constraints 2, 9, and 10 and get `(2*D - 1) * n + D*n - 1 + D*n`, which
-    gives us `(4*D - 1) * n - 1, where `D = (n - 1) * rounds`.
-    The lower bound is obviously `0`.
+    Since one streak or separation violation can count more than once (see
+    above), the bounds given for the single constraints only hold if all
+    streak and separation limits are `1`. As upper bound for the number of
+    errors for arbitrary limits, we therefore look at what can be added to
+    the counter when one team is processed on one day: `1` for a missing or
+    inconsistent game (constraints 1 and 2), at most
+    `max(1, max(home_streak_min, away_streak_min) - 1)` for a streak that
+    is too long or ends too early (constraints 3 to 6), and at most
+    `max(separation_min, D - 2 - separation_max, 0)` for a repeated game
+    (constraints 7 and 8). This can happen `D * n` times. A streak that is
+    still too short at the end of the season adds at most
+    `max(home_streak_min, away_streak_min) - 1` for each of the `n` teams.
+    All the `n * (n - 1) / 2` pairings together have at most `D * n` home
+    games and should have `rounds = D / (n - 1)` games each, i.e., constraint
+    10 adds at most `D*n + D*n/2` and constraint 9 at most `D*n`, where
+    `D = (n - 1) * rounds`. The sum of all of this is the upper bound, see
+    :meth:`Errors.upper_bound`. The lower bound is obviously `0`.
 
     :param y: the game plan
     :param home_streak_min: the minimum permitted home streak length
@@ -354,17 +367,28 @@ class Errors(Objective):
 
     def upper_bound(self) -> int:
         """
-        Compute upper bound for errors: `(4*D - 1) * n - 1`.
+        Compute upper bound for errors.
 
         Here `D` is the number of days, `n` is the number of teams, and
-        `D = (n - 1) * rounds`. See the documentation of :func:`count_errors`.
+        `D = (n - 1) * rounds`. With `short` being the largest penalty for a
+        streak that is too short, i.e.,
+        `max(home_streak_min, away_streak_min) - 1`, and `sep` being the
+        largest penalty for a repeated game, i.e.,
+        `max(separation_min, D - 2 - separation_max, 0)`, the bound is
+        `D*n * (3 + max(1, short) + sep) + n*short + D*n/2`.
+        See the documentation of :func:`count_errors`.
 
-        :return: `(4*D - 1) * n - 1`
+        :return: `D*n * (3 + max(1, short) + sep) + n*short + D*n/2`
         """
-        n: Final[int] = self.instance.n_cities
-        rounds: Final[int] = self.instance.rounds
-        days: Final[int] = (n - 1) * rounds
-        return (4 * days - 1) * n - 1
+        inst: Final[Instance] = self.instance
+        n: Final[int] = inst.n_cities
+        days: Final[int] = (n - 1) * inst.rounds
+        short: Final[int] = max(
+            inst.home_streak_min, inst.away_streak_min) - 1
+        sep: Final[int] = max(
+            inst.separation_min, days - 2 - inst.separation_max, 0)
+        return (days * n * (3 + max(1, short) + sep)) + (n * short) \
+            + ((days * n) // 2)
 
     def is_always_integer(self) -> bool:
         """
